@@ -9,6 +9,7 @@
      psem <id> <verdict code>
      rows <id> <statement index> <code> <fp:value:timestamp_ms>...
      down <id> <verdict code> <number of rows the down-sampled statement yields>
+     re   <id> <parse valid 0/1> <per value: s = RE2 search, p = Prometheus anchored match, as 0/1 pairs "sp">...
    Atoms: decimal integers (any size), t / f, none, constructor names, strings as h<hex bytes>. *)
 open Promsel
 
@@ -147,8 +148,22 @@ let dec_of_n = function
     let ds = List.fold_left step [0] (bits p []) in
     String.concat "" (List.rev_map string_of_int ds)
 
+let rec re_of = function
+  | A "RAny" -> RAny | A "REps" -> REps | A "RBol" -> RBol | A "REol" -> REol
+  | L [A "RChr"; c] -> RChr (Char.chr (int_of c))
+  | L [A "RAlt"; a; b] -> RAlt (re_of a, re_of b)
+  | L [A "RCat"; a; b] -> RCat (re_of a, re_of b)
+  | L [A "RStar"; a] -> RStar (re_of a) | L [A "RPlus"; a] -> RPlus (re_of a) | L [A "ROpt"; a] -> ROpt (re_of a)
+  | L [A "RGrp"; a] -> RGrp (re_of a) | L [A "RCap"; a] -> RCap (re_of a)
+  | _ -> fail_sx "re"
+
 let handle (x : sx) : unit =
   match x with
+  | L [A "re"; id; ast; text; vals] ->
+    let r = re_of ast in
+    Printf.printf "re %d %s" (int_of id) (b01 (re_case_ok r (str_of text)));
+    List.iter (fun (a, b) -> Printf.printf " %s%s" (b01 a) (b01 b)) (re_case_answers r (list_of str_of vals));
+    print_newline ()
   | L [A "sql"; id; kind; h; c; ms; full] ->
     let (txt, mr) = pcase_sql { pc_id = z_of id; pc_kind = kind_of kind; pc_hints = hints_of h; pc_ctx = ctx_of c;
                                 pc_ms = list_of matcher_of ms; pc_full = tbl_of full } in
